@@ -237,7 +237,7 @@ func AffinityFromMD(ch grpctunnel.TunnelChannel) any {
 // Open builds the configured topology and sets w.Ch / w.TCh. openMD is the
 // metadata attached to the tunnel-opening call.
 func (w *World) Open(openMD metadata.MD) error {
-	ctx := w.RootCtx
+	ctx := context.WithValue(w.RootCtx, ctxValKey{}, "opener-ctx")
 	if openMD != nil {
 		ctx = metadata.NewOutgoingContext(ctx, openMD.Copy())
 	}
